@@ -135,6 +135,34 @@ def shared_lookups(model, cls, f, expr, defs, seen=None, depth=4):
     return out
 
 
+def namespace_depth(t, inst, defs):
+    """how many keyed steps below the instance's own namespace the store target t lies: 0 for `instance.__dict__[k]` / `vars(instance)[k]` / `instance.attr`,
+    1 for `instance.__dict__[k1][k2]`, `instance.__dict__.setdefault(k1, {})[k2]`, `instance.attr[k]` ..., None when t is not rooted at the instance"""
+    keyed = 0
+    e = t
+    for _ in range(20):
+        if isinstance(e, ast.Subscript):
+            e = e.value
+            keyed += 1
+        elif isinstance(e, ast.Attribute) and e.attr == '__dict__':
+            e = e.value                      # the namespace itself
+        elif isinstance(e, ast.Attribute):
+            e = e.value
+            keyed += 1                       # instance.attr is a key of the namespace
+        elif isinstance(e, ast.Call) and isinstance(e.func, ast.Name) and e.func.id == 'vars' and e.args:
+            e = e.args[0]
+        elif isinstance(e, ast.Call) and isinstance(e.func, ast.Attribute) and e.func.attr in ('get', 'setdefault', '__getitem__'):
+            e = e.func.value
+            keyed += 1
+        elif isinstance(e, ast.Name) and e.id != inst and len([d for d in defs.get(e.id, []) if isinstance(d, ast.AST)]) == 1:
+            e = [d for d in defs.get(e.id, []) if isinstance(d, ast.AST)][0]
+        else:
+            break
+    if isinstance(e, ast.Name) and e.id == inst:
+        return max(keyed - 1, 0)
+    return None
+
+
 def guarded_by_instance_none(f, ret, inst):
     """`if instance is None: return self` - class-level access idiom"""
     for n in walk_shallow(f.node):
@@ -190,6 +218,12 @@ def check(run, model, tier):
                 why = ('__set__ stores the value in %s: a mapping owned by the descriptor (one object for all instances of the class) keyed by something derived from the '
                        'instance. A mapping finds keys by hash/==, not identity: two instances that compare equal (a class with value-based __eq__/__hash__) share one '
                        'slot, so assigning on one changes what the other reads' % norm(t))
+            if ok:
+                nd = namespace_depth(t, inst, sdefs)
+                if nd is not None and nd >= 1:
+                    ok = False
+                    why = ('__set__ stores the value in %s: not in the instance\'s own namespace but in a container that the namespace points to. A second instance made as a shallow '
+                           'copy of the first (copy.copy, __dict__.update) shares that container, so assigning on one instance changes what the other reads' % norm(t))
             if ok and only_through_surrogate(t, inst, sdefs):
                 ok = False
                 why = ('__set__ stores the value under a key derived from id()/hash() of the instance (%s) in storage owned by the descriptor: such a key is unique only among '
